@@ -35,13 +35,105 @@ pub open spec fn table_ok(a: &UsedTemplateParameters, this_id: ItemId, inst: &Te
 }
 """
 
+
+SPEC2 = """
+// ---- the blocklisted-template rule: every argument's usage, except the instantiation's own ----
+pub open spec fn bl_step(a: &UsedTemplateParameters, this_id: ItemId, inst: &TemplateInstantiation, k: int) -> Set<ItemId> {
+    let arg = a.ctx.s_resolve(inst.s_args()[k]);
+    if arg != this_id { s_used(&a.used, arg).unwrap() } else { Set::<ItemId>::empty() }
+}
+pub open spec fn bl_set(a: &UsedTemplateParameters, this_id: ItemId, inst: &TemplateInstantiation, k: int) -> Set<ItemId>
+    decreases k
+{
+    if k <= 0 { Set::<ItemId>::empty() } else { bl_set(a, this_id, inst, k - 1).union(bl_step(a, this_id, inst, k - 1)) }
+}
+pub open spec fn bl_ok(a: &UsedTemplateParameters, this_id: ItemId, inst: &TemplateInstantiation) -> bool {
+    forall|i: int| 0 <= i < inst.s_args().len() && a.ctx.s_resolve(inst.s_args()[i]) != this_id ==> s_used(&a.used, #[trigger] a.ctx.s_resolve(inst.s_args()[i])).is_some()
+}
+// ---- the join rule: the usage of every successor over an edge the analysis considers, except the item itself ----
+pub open spec fn join_step(a: &UsedTemplateParameters, item: &Item, k: int) -> Set<ItemId> {
+    let e = item.s_edges(a.ctx)[k];
+    if e.0 != item.s_id() && UsedTemplateParameters::s_consider_edge(e.1) { s_used(&a.used, e.0).unwrap() } else { Set::<ItemId>::empty() }
+}
+pub open spec fn join_set(a: &UsedTemplateParameters, item: &Item, k: int) -> Set<ItemId>
+    decreases k
+{
+    if k <= 0 { Set::<ItemId>::empty() } else { join_set(a, item, k - 1).union(join_step(a, item, k - 1)) }
+}
+pub open spec fn join_ok(a: &UsedTemplateParameters, item: &Item) -> bool {
+    forall|i: int| 0 <= i < item.s_edges(a.ctx).len() && (#[trigger] item.s_edges(a.ctx)[i]).0 != item.s_id() && UsedTemplateParameters::s_consider_edge(item.s_edges(a.ctx)[i].1)
+        ==> s_used(&a.used, item.s_edges(a.ctx)[i].0).is_some()
+}
+// ---- constrain: which rule applies to `id`, and what it adds ----
+pub open spec fn rule_ok(a: &UsedTemplateParameters, id: ItemId) -> bool {
+    let item = a.ctx.s_item(id);
+    match item.s_type_kind() {
+        Some(TypeKind::TypeParam) => true,
+        Some(TypeKind::TemplateInstantiation(inst)) => if a.allowlisted_items.s_contains(inst.s_definition().0) { table_ok(a, id, &inst) } else { bl_ok(a, id, &inst) },
+        _ => join_ok(a, &item),
+    }
+}
+pub open spec fn rule_set(a: &UsedTemplateParameters, id: ItemId) -> Set<ItemId> {
+    let item = a.ctx.s_item(id);
+    match item.s_type_kind() {
+        Some(TypeKind::TypeParam) => Set::<ItemId>::empty().insert(id),
+        Some(TypeKind::TemplateInstantiation(inst)) => if a.allowlisted_items.s_contains(inst.s_definition().0) { contrib_set(a, id, &inst, zip_len(a, &inst)) } else { bl_set(a, id, &inst, inst.s_args().len() as int) },
+        _ => join_set(a, &item, item.s_edges(a.ctx).len() as int),
+    }
+}
+// the edges over which usage flows upwards (template_params.rs, consider_edge: each exclusion is argued in its comments)
+impl UsedTemplateParameters<'_> {
+    pub open spec fn s_consider_edge(kind: EdgeKind) -> bool {
+        kind == EdgeKind::TemplateArgument || kind == EdgeKind::BaseMember || kind == EdgeKind::Field || kind == EdgeKind::Constructor || kind == EdgeKind::Destructor
+        || kind == EdgeKind::VarType || kind == EdgeKind::FunctionReturn || kind == EdgeKind::FunctionParameter || kind == EdgeKind::TypeReference
+    }
+}
+pub open spec fn same_but(a: &UsedTemplateParameters, b: &UsedTemplateParameters, id: ItemId) -> bool {
+    &&& a.ctx == b.ctx && a.allowlisted_items == b.allowlisted_items
+    &&& forall|j: ItemId| j != id ==> s_used(&a.used, j) == s_used(&b.used, j)
+}
+pub proof fn lemma_contrib_frame(a: &UsedTemplateParameters, b: &UsedTemplateParameters, id: ItemId, inst: &TemplateInstantiation, k: int)
+    requires same_but(a, b, id), inst.s_definition().0 != id,
+    ensures contrib_set(a, id, inst, k) == contrib_set(b, id, inst, k)
+    decreases k
+{ if k > 0 { lemma_contrib_frame(a, b, id, inst, k - 1); } }
+pub proof fn lemma_bl_frame(a: &UsedTemplateParameters, b: &UsedTemplateParameters, id: ItemId, inst: &TemplateInstantiation, k: int)
+    requires same_but(a, b, id),
+    ensures bl_set(a, id, inst, k) == bl_set(b, id, inst, k)
+    decreases k
+{ if k > 0 { lemma_bl_frame(a, b, id, inst, k - 1); } }
+pub proof fn lemma_join_frame(a: &UsedTemplateParameters, b: &UsedTemplateParameters, item: &Item, k: int)
+    requires same_but(a, b, item.s_id()),
+    ensures join_set(a, item, k) == join_set(b, item, k)
+    decreases k
+{ if k > 0 { lemma_join_frame(a, b, item, k - 1); } }
+// the IR invariant `debug_assert!(this_id != instantiation.template_definition())` of constrain_instantiation
+pub open spec fn def_is_not_self(a: &UsedTemplateParameters, id: ItemId) -> bool {
+    match a.ctx.s_item(id).s_type_kind() { Some(TypeKind::TemplateInstantiation(inst)) => inst.s_definition().0 != id, _ => true }
+}
+pub proof fn lemma_rule_frame(a: &UsedTemplateParameters, b: &UsedTemplateParameters, id: ItemId)
+    requires same_but(a, b, id), def_is_not_self(a, id), a.ctx.s_item(id).s_id() == id,
+    ensures rule_set(a, id) == rule_set(b, id), rule_ok(a, id) ==> rule_ok(b, id)
+{
+    let item = a.ctx.s_item(id);
+    match item.s_type_kind() {
+        Some(TypeKind::TypeParam) => {}
+        Some(TypeKind::TemplateInstantiation(inst)) => {
+            lemma_contrib_frame(a, b, id, &inst, zip_len(a, &inst));
+            lemma_bl_frame(a, b, id, &inst, inst.s_args().len() as int);
+        }
+        _ => { lemma_join_frame(a, b, &item, item.s_edges(a.ctx).len() as int); }
+    }
+}
+"""
+
 GET_DEF = ('self.used .get(&instantiation.template_definition().into()) .expect("Should have a used entry for instantiation\'s template definition") .as_ref() '
            '.expect("And it should be Some because only this_id\'s set is None, and an \\\n                     instantiation\'s template definition should never be the \\\n                     instantiation itself")')
 
 UNIT = {
     "name": "template_params",
     "env": [os.path.join(ENV, "template_params_env.rs")],
-    "declared_trusted": {r"external_body": 20},
+    "declared_trusted": {r"external_body": 30},
     "items": [
         {"kind": "struct", "file": TP, "name": "UsedTemplateParameters"},
         {"kind": "raw", "label": "spec", "text": SPEC},
@@ -68,6 +160,88 @@ UNIT = {
          "ensures": [
              # the rule of the analysis (template_params.rs module docs): monotone in the table, independent of how much is already known
              "final(used_by_this_id).view() =~= old(used_by_this_id).view().union(contrib_set(self, this_id, instantiation, zip_len(self, instantiation)))",
+         ]},
+
+        {"kind": "enum", "file": "bindgen/ir/traversal.rs", "name": "EdgeKind", "prefix": "#[derive(Copy, Clone, PartialEq, Eq, Structural)]"},
+        {"kind": "enum", "file": "bindgen/ir/analysis/mod.rs", "name": "ConstrainResult", "prefix": "#[derive(Copy, Clone, PartialEq, Eq, Structural)]"},
+        {"kind": "raw", "label": "spec2", "text": SPEC2},
+        {"kind": "fn", "file": TP, "name": "consider_edge", "impl": r"^impl UsedTemplateParameters<'_>$", "impl_header": "impl<'ctx> UsedTemplateParameters<'ctx>", "impl_name": "UsedTemplateParameters", "ret": "r",
+         "ensures": ["r == Self::s_consider_edge(kind)"]},
+        {"kind": "fn", "file": TP, "name": "take_this_id_usage_set", "impl": r"^impl UsedTemplateParameters<'_>$", "impl_header": "impl<'ctx> UsedTemplateParameters<'ctx>", "impl_name": "UsedTemplateParameters", "ret": "r",
+         "subst": [
+             ("<Id: Into<ItemId>>", "", 1, "R12 generic Into<ItemId> parameter at its only instantiation (ItemId)"),
+             ("this_id: Id,", "this_id: ItemId,", 1, "R12 (same)"),
+             ("let this_id = this_id.into();", "", 1, "R12 (same): identity conversion"),
+             (("self.used .get_mut(&this_id)", "upon entry of `constrain`\", )"), "take_entry(&mut self.used, this_id)", 1, "R5 table entry take (the two .expect()s are the env fn's precondition)"),
+         ],
+         "requires": ["s_used(&old(self).used, this_id).is_some()"],
+         "ensures": [
+             "r.view() == s_used(&old(self).used, this_id).unwrap()",
+             "s_used(&final(self).used, this_id).is_none()",
+             "same_but(final(self), old(self), this_id)",
+         ]},
+        {"kind": "fn", "file": TP, "name": "constrain_instantiation_of_blocklisted_template", "impl": r"^impl UsedTemplateParameters<'_>$", "impl_header": "impl<'ctx> UsedTemplateParameters<'ctx>", "impl_name": "UsedTemplateParameters", "ret": "r_unit",
+         "subst": [
+             ("let args = instantiation .template_arguments() .iter() .map(|a| {",
+              "let args_ = instantiation.template_arguments(); let ghost u0 = used_by_this_id.view(); let mut i_: usize = 0; while i_ < args_.len() "
+              "invariant args_@ == instantiation.s_args(), 0 <= i_ <= args_.len(), bl_ok(self, this_id, instantiation), used_by_this_id.view() =~= u0.union(bl_set(self, this_id, instantiation, i_ as int)) "
+              "decreases args_.len() - i_ { let a = &args_[i_]; i_ = i_ + 1; "
+              "proof { assert(bl_set(self, this_id, instantiation, i_ as int) == bl_set(self, this_id, instantiation, i_ - 1).union(bl_step(self, this_id, instantiation, i_ - 1))); } let a = {", 1,
+              "R26 iterator pipeline .iter().map(F).filter(G).flat_map(H) + extend -> index loop (head; F's body follows)"),
+             (("a.into_resolver()", ".id()"), "self.ctx.resolve_through(*a)", 1, "R5 resolver chain"),
+             (r"re:\}\)\s*\.filter\(\|a\|\s*([^)]+?)\)\s*\.flat_map\(\|a\|\s*\{", r"}; let keep_ = { let a = &a; \1 }; if keep_ {", 1, "R26 (G's body is the captured text; H's body follows)"),
+             (("self.used .get(&a)", ".iter()"), "extend_from(used_by_this_id, used_set_of(&self.used, a));", 1, "R5 table lookup + R26 extend of H's result"),
+             ("}); used_by_this_id.extend(args);", "} }", 1, "R26 (closing: the extend is inside the loop)"),
+         ],
+         "requires": ["bl_ok(self, this_id, instantiation)"],
+         "ensures": [
+             "final(used_by_this_id).view() =~= old(used_by_this_id).view().union(bl_set(self, this_id, instantiation, instantiation.s_args().len() as int))",
+         ]},
+        {"kind": "fn", "file": TP, "name": "constrain_join", "impl": r"^impl UsedTemplateParameters<'_>$", "impl_header": "impl<'ctx> UsedTemplateParameters<'ctx>", "impl_name": "UsedTemplateParameters", "ret": "r_unit",
+         "subst": [
+             ("item.trace( self.ctx, &mut |sub_id, edge_kind| {",
+              "let edges_ = item.traced_edges(self.ctx); let ghost u0 = used_by_this_id.view(); let mut i_: usize = 0; while i_ < edges_.len() "
+              "invariant edges_@ == item.s_edges(self.ctx), 0 <= i_ <= edges_.len(), join_ok(self, item), used_by_this_id.view() =~= u0.union(join_set(self, item, i_ as int)) "
+              "decreases edges_.len() - i_ { let (sub_id, edge_kind) = edges_[i_]; i_ = i_ + 1; "
+              "proof { assert(join_set(self, item, i_ as int) == join_set(self, item, i_ - 1).union(join_step(self, item, i_ - 1))); }", 1,
+              "R27 `x.trace(ctx, &mut |sub, kind| BODY, &())` -> loop over the (successor, kind) pairs trace hands to its callback, BODY verbatim"),
+             ("return;", "continue;", 1, "R27 (`return` from the callback = next edge)"),
+             (("let used_by_sub_id = self .used .get(&sub_id)", "used_by_this_id.extend(used_by_sub_id);"), "extend_from(used_by_this_id, used_set_of(&self.used, sub_id));", 1, "R5 table lookup + extend"),
+             ("}, &(), );", "}", 1, "R27 (closing)"),
+         ],
+         "requires": ["join_ok(self, item)"],
+         "ensures": [
+             "final(used_by_this_id).view() =~= old(used_by_this_id).view().union(join_set(self, item, item.s_edges(self.ctx).len() as int))",
+         ]},
+        {"kind": "fn", "file": TP, "name": "constrain", "impl": r"^impl<'ctx> MonotoneFramework for UsedTemplateParameters<'ctx>$", "impl_header": "impl<'ctx> UsedTemplateParameters<'ctx>", "impl_name": "UsedTemplateParameters", "ret": "r",
+         "r2_skip": True,
+         "subst": [
+             (r"re:extra_assert!\(self\.used\.values\(\)\.all\(\|v\| v\.is_some\(\)\)\);", "", 2, "dropped: compiled only under the testing-only feature; the invariant it states is this contract's pre- and postcondition"),
+             ("item.as_type().map(|ty| ty.kind())", "item.type_kind()", 1, "R5 accessor chain"),
+             ("Some(&TypeKind::TypeParam)", "Some(TypeKind::TypeParam)", 1, "R24 ref pattern"),
+             (".contains(&inst.template_definition().into())", ".contains(&inst.template_definition().item())", 1, "R12"),
+             (("assert!( new_len >= original_len,", "terminate!\" );"), "assert_or_panic(new_len >= original_len);", 1, "assert! -> proof obligation (not panicking is proved)"),
+             ("debug_assert!(self.used[&id].is_none());", "proof { assert(s_used(&self.used, id).is_none()); }", 1, "debug_assert -> proof obligation"),
+             ("self.used.insert(id, Some(used_by_this_id));", "put_entry(&mut self.used, id, used_by_this_id);", 1, "R5 table insert"),
+         ],
+         "requires": [
+             "s_used(&old(self).used, id).is_some()",
+             "rule_ok(old(self), id)",
+             "def_is_not_self(old(self), id)",
+         ],
+         "ghost_start": "let ghost a0 = *self;",
+         "proof_before": [
+             ("let ty_kind", "lemma_rule_frame(&a0, &*self, id);"),
+             ("let new_len", "assert(used_by_this_id.view() =~= s_used(&a0.used, id).unwrap().union(rule_set(&*self, id))); vstd::set_lib::lemma_len_subset(s_used(&a0.used, id).unwrap(), used_by_this_id.view());"),
+             ("if new_len", "if new_len == original_len { vstd::set_lib::lemma_subset_equality(s_used(&a0.used, id).unwrap(), s_used(&self.used, id).unwrap()); }"),
+         ],
+         "ensures": [
+             # the rule: whatever is already known plus what the item's rule yields from the rest of the table
+             "s_used(&final(self).used, id) == Some(s_used(&old(self).used, id).unwrap().union(rule_set(old(self), id)))",
+             # nothing else changes; in particular every other entry stays Some (the table invariant)
+             "same_but(final(self), old(self), id)",
+             # Changed is reported exactly when the set grew (the driver re-queues the dependants on Changed only)
+             "(r == ConstrainResult::Same) <==> s_used(&final(self).used, id).unwrap() =~= s_used(&old(self).used, id).unwrap()",
          ]},
     ],
 }
